@@ -195,7 +195,8 @@ def impl_outcome(evs):
 
 def post(c, evs, part):
     part.count('matrix', '%s => %s' % (c['cell'], impl_outcome(evs)))
-    part.nontrivial.add(nt_hash(c['script'], tuple(c['stack']), c['flags'], c['sv'], c.get('succ') or None))
+    if impl_outcome(evs) != 'refused':
+        part.nontrivial.add(nt_hash(c['script'], tuple(c['stack']), c['flags'], c['sv'], c.get('succ') or None))
 
 
 def worker(job):
